@@ -503,7 +503,16 @@ def rule_guards(rep: Report, repo: Repo):
         key = (mod, q)
         cands = [(r, names, rows, lits) for r, e, names, rows, lits in inv if e == exc and id(r) not in matched.get(key, set())]
         near = [f"L{r.lineno}:{' and '.join(('' if pol else 'not ') + norm(t)[:50] for t, pol in lits)[:160]}" for r, _n, _rw, lits in cands][:4]
-        related = [c for c in cands if c[1] is not None and (set(c[1]) & set(atoms_c) or not atoms_c)]
+        def over_zip(r_):
+            """the raise sits in a loop over zip(...): its condition speaks about paired-up elements, which the expected atoms (written
+            for the keyed form `X[i]`) cannot express -- whether the pairing is right is not something this rule decides"""
+            p_ = getattr(r_, "_parent", None)
+            while p_ is not None and not isinstance(p_, ast.FunctionDef):
+                if isinstance(p_, ast.For) and isinstance(p_.iter, ast.Call) and call_name(p_.iter) == "zip":
+                    return True
+                p_ = getattr(p_, "_parent", None)
+            return False
+        related = [c for c in cands if c[1] is not None and (set(c[1]) & set(atoms_c) or not atoms_c) and not over_zip(c[0])]
         unrelated = [c for c in cands if c not in related]
         if not related and unrelated:
             raise AnalysisError(RULE, f"{mod}::{q} guard `{gid}` ({what}): no raise has the expected atoms {atoms_c}, but `raise {exc}` "
@@ -997,3 +1006,60 @@ def rule_total_callbacks(rep: Report, repo: Repo):
                      "`return <value>` or `raise`", repo.loc(mod, bad[0].ast))
         else:
             rep.ok(R, f"{mod}::{q} every path ends in `return <value>` or `raise`", "", repo.loc(mod, f))
+
+
+# ---------------------------------------------------------------------------
+# position-wise pairing of two dictionaries
+# ---------------------------------------------------------------------------
+
+
+def rule_dict_pairing(rep: Report, repo: Repo):
+    """`zip(A.values(), B.values())` pairs the k-th value of A with the k-th value of B.  That is the pairing by key only if B was built
+    by iterating A itself (`for k in A`, `A.items()`, `A.keys()`); a B built over `set(A)` / `sorted(A)` has another order than A's
+    insertion order, and every check or formula applied to the pairs then compares the entry of one block with the data of another.
+    Looked for in block_diagonalize and operator_to_BlockSeries with private helpers seen through."""
+    from .resolve import env_at, resolved
+    R = "E5.pairing"
+    n_sites = 0
+    for q in ("block_diagonalize", "operator_to_BlockSeries"):
+        try:
+            f = repo.find_expanded(f"{MOD}::{q}", R)
+        except AnalysisError:
+            f = repo.find(f"{MOD}::{q}", R)
+        for z in [n for n in ast.walk(f) if isinstance(n, ast.Call) and call_name(n) == "zip" and len(n.args) >= 2]:
+            env = env_at(z, f)
+            views = []  # (dictionary name | None, the comprehension it resolves to | None)
+            for a in z.args:
+                r = resolved(a, env)
+                if isinstance(r, ast.Call) and isinstance(r.func, ast.Attribute) and r.func.attr in ("values", "items", "keys") and not r.args:
+                    if isinstance(r.func.value, ast.Name):
+                        views.append((r.func.value.id, None))
+                        continue
+                    if isinstance(r.func.value, ast.DictComp):
+                        raw = a.func.value.id if isinstance(a, ast.Call) and isinstance(a.func, ast.Attribute) and isinstance(a.func.value, ast.Name) else "<dict>"
+                        views.append((raw, r.func.value))
+                        continue
+            if len(views) < 2 or len({v[0] for v in views}) < 2:
+                continue
+            n_sites += 1
+            base, base_comp = views[0]
+            for other, comp in views[1:]:
+                if other == base:
+                    continue
+                if comp is None:
+                    asg = [n for n in ast.walk(f) if isinstance(n, ast.Assign) and len(n.targets) == 1 and isinstance(n.targets[0], ast.Name)
+                           and n.targets[0].id == other and n.lineno <= z.lineno]
+                    comp = asg[-1].value if asg else None
+                inst = f"{MOD}::{q} `{norm(z)[:70]}` pairs `{base}` and `{other}` position by position"
+                if base_comp is not None or not (isinstance(comp, ast.DictComp) and len(comp.generators) == 1):
+                    raise AnalysisError(R, f"{inst}: how the two dictionaries are built is not understood")
+                it = norm(comp.generators[0].iter)
+                if it in (base, f"{base}.items()", f"{base}.keys()", f"list({base})", f"tuple({base})") and not comp.generators[0].ifs:
+                    rep.ok(R, inst, f"`{other}` is built by iterating `{base}` itself: same order", repo.loc(MOD, z))
+                elif it in (f"set({base})", f"sorted({base})", f"sorted({base}.keys())", f"frozenset({base})", f"reversed({base})") or comp.generators[0].ifs:
+                    rep.fail(R, f"{inst}, but the second one is built over `{it}`" + (" with a filter" if comp.generators[0].ifs else ""),
+                             f"the order of `{it}` is not the insertion order of `{base}`: the k-th entries belong to different keys "
+                             "(e.g. a mask given as {1: ..., 0: ...} is checked against the data of the other block)", repo.loc(MOD, z))
+                else:
+                    raise AnalysisError(R, f"{inst}: the second dictionary iterates `{it[:50]}`: not understood")
+    rep.ok(R, "position-wise pairings of two dictionaries", f"{n_sites} zip sites over views of different dictionaries", repo.rel(MOD))
